@@ -365,6 +365,73 @@ theorem splice_rowGroup_describes (le : Bytes → Bytes → Bool) (lim : Nat) :
           have := hall j (by simpa using h1) (by simpa using h2) (by simpa [chunkStarts] using h3)
           simpa [chunkStarts] using this
 
+/-! ## row group totals (writer.go:1716-1725, :1866-1885) -/
+
+/-- the fields of `format.RowGroup` computed from the chunks -/
+structure RowGroupTotals where
+  fileOffset : Nat
+  totalByteSize : Nat
+  totalCompressedSize : Nat
+  numRows : Nat
+deriving Repr, DecidableEq
+
+/-- writer.go:1716-1725: sums of the chunks' `TotalUncompressedSize` / `TotalCompressedSize`;
+    `fileOffset` = the writer's offset before the first chunk; `numRows` =
+    `rg.columns[0].totalRowCount()` (for a copied column: the source row group's row count) -/
+def rowGroupTotals (start : Nat) (ms : List FullMeta) : RowGroupTotals :=
+  { fileOffset := start,
+    totalByteSize := (ms.map (·.layout.totalUncompressed)).sum,
+    totalCompressedSize := (ms.map (·.layout.totalCompressed)).sum,
+    numRows := match ms with | m :: _ => m.layout.numRows | [] => 0 }
+
+theorem map_eq_of_describes (le : Bytes → Bytes → Bool) (lim : Nat) (f : ChunkMeta → Nat) (g : List PageOp → Nat)
+    (hfg : ∀ st ps, f (chunkMeta st ps) = g ps) :
+    ∀ (ms : List FullMeta) (pss : List (List PageV)) (starts : List Nat),
+    ms.length = pss.length → starts.length = pss.length →
+    (∀ i (h1 : i < ms.length) (h2 : i < pss.length) (h3 : i < starts.length), Describes le lim ms[i] starts[i] pss[i]) →
+    ms.map (fun m => f m.layout) = pss.map (fun ps => g (ops ps))
+  | [], [], _, _, _, _ => rfl
+  | [], _ :: _, _, h, _, _ => by simp at h
+  | _ :: _, [], _, h, _, _ => by simp at h
+  | _ :: _, _ :: _, [], _, h, _ => by simp at h
+  | m :: ms, ps :: pss, st :: starts, h1, h2, hd => by
+    have h0 := (hd 0 (by simp) (by simp) (by simp)).1
+    simp only [List.getElem_cons_zero] at h0
+    simp only [List.map_cons, h0, hfg]
+    congr 1
+    exact map_eq_of_describes le lim f g hfg ms pss starts (by simpa using h1) (by simpa using h2)
+      (fun i a b c => by
+        have := hd (i + 1) (by simp; omega) (by simp; omega) (by simp; omega)
+        simpa using this)
+
+theorem chunkStarts_length (start : Nat) : ∀ cs : List (List PageOp), (chunkStarts start cs).length = cs.length
+  | [] => rfl
+  | c :: cs => by simp [chunkStarts, chunkStarts_length (start + totalSize c) cs]
+
+/-- **splice_rowGroup_totals**: for a row group all of whose columns are spliced,
+    `total_compressed_size` is exactly the number of bytes between `file_offset` and the offset
+    after the last chunk, and `total_byte_size` is the sum of the uncompressed page sizes -/
+theorem splice_rowGroup_totals (le : Bytes → Bytes → Bool) (lim start : Nat)
+    (cs : List (FullMeta × Nat)) (pss : List (List PageV)) (srcStarts : List Nat)
+    (hl : cs.length = pss.length) (hl2 : cs.length = srcStarts.length)
+    (hd : ∀ i (h1 : i < cs.length) (h2 : i < pss.length) (h3 : i < srcStarts.length),
+        Describes le lim cs[i].1 srcStarts[i] pss[i]) :
+    ∃ ms endOff, spliceRowGroupV start cs = some (ms, endOff) ∧
+      (rowGroupTotals start ms).fileOffset = start ∧
+      start + (rowGroupTotals start ms).totalCompressedSize = endOff ∧
+      (rowGroupTotals start ms).totalByteSize =
+        (pss.map fun ps => ((ops ps).map fun p => p.hdrLen + p.uncompLen).sum).sum := by
+  obtain ⟨ms, hms, hlen, hall⟩ := splice_rowGroup_describes le lim start cs pss srcStarts hl hl2 hd
+  have hcl : (chunkStarts start (pss.map ops)).length = pss.length := by
+    rw [chunkStarts_length, List.length_map]
+  refine ⟨ms, _, hms, rfl, ?_, ?_⟩
+  · simp only [rowGroupTotals]
+    rw [map_eq_of_describes le lim (·.totalCompressed) totalSize (fun st ps => (layout_wf st ps).2.1)
+      ms pss _ hlen hcl hall]
+  · simp only [rowGroupTotals]
+    rw [map_eq_of_describes le lim (·.totalUncompressed) (fun ps => (ps.map fun p => p.hdrLen + p.uncompLen).sum)
+      (fun st ps => (layout_wf st ps).2.2.1) ms pss _ hlen hcl hall]
+
 /-! ## non-vacuity -/
 
 def exPages : List PageV :=
